@@ -82,6 +82,26 @@ class Chunks:
         I.ghost.setdefault("chunks", {})[seq.decl().name()] = self
 
 
+_PROBE = z3.Int("chunk!probe")
+
+
+def get_chunks(I: Interp, n: Any, width: int | None, elem: Callable[[Any], Any],
+               name: str = "chunks") -> "Chunks":
+    """Chunks(n, width, elem), shared between evaluations of the same fold (same count, same
+    element function) so that re-evaluating a property yields the identical term."""
+    try:
+        key = (simp(n).get_id() if z3.is_expr(n) else n, width, simp(elem(_PROBE)).get_id())
+    except Exception:  # noqa: BLE001
+        return Chunks(I, n, width, elem, name)
+    cache = I.ghost.setdefault("chunk_cache", {})
+    hit = cache.get(key)
+    if hit is not None:
+        return hit[0]
+    c = Chunks(I, n, width, elem, name)
+    cache[key] = (c, simp(n) if z3.is_expr(n) else n, simp(elem(_PROBE)))
+    return c
+
+
 # --------------------------------------------------------------------------- state cloning
 def clone(v: Any, memo: dict[int, Any]) -> Any:
     if isinstance(v, (VInt, VBool, VBytes, VStr, VConst, VFloat)) or v is NONE:
@@ -246,6 +266,9 @@ def loop_key(fr: Frame, st: Any = None) -> tuple[str, int]:
 def for_loop(I: Interp, st: Any, fr: Frame) -> None:
     key = loop_key(fr, st)
     it = I.eval(st.iter, fr)
+    from .values import VSymMap
+    if isinstance(it, VSymMap):
+        it = it.keys_list()
     lc = I.ex.loop_contracts.get(key)
     if lc is not None:
         return invariant_for(I, st, fr, it, lc, key)
@@ -402,8 +425,8 @@ def template_for(I: Interp, st: Any, fr: Frame, seq: VList) -> None:
             from . import models
             w = models.seq_len(rest)
             width = w.as_long() if z3.is_int_value(w) else None
-            ch = Chunks(I, n, width, lambda k, rest=rest: z3.substitute(rest, (j, k)),
-                        "fold_" + name)
+            ch = get_chunks(I, n, width, lambda k, rest=rest: z3.substitute(rest, (j, k)),
+                            "fold_" + name)
             fr.env[name] = VBytes(z3.Concat(old.t, ch.seq), old.mutable)
         elif isinstance(old, VInt):
             assert isinstance(new, VInt)
@@ -644,6 +667,9 @@ def comprehension(I: Interp, e: Any, fr: Frame, kind: str) -> V:
     gens = e.generators
     if len(gens) == 1 and not gens[0].ifs and kind in ("list", "gen"):
         src = I.eval(gens[0].iter, fr)
+        from .values import VSymMap
+        if isinstance(src, VSymMap):
+            src = src.keys_list()
         if isinstance(src, VList) and src.items is None and \
                 not z3.is_int_value(simp(src.n)):
             return functional_map(I, e, fr, src, gens[0])
